@@ -968,6 +968,7 @@ var c09Tricky = []string{
 	"<svg><!--</svg>", "<svg><![CDATA[</svg>]]", "<svg><?pi </svg>?", "<svg><!---></svg>x", "<svg><!----></svg>x", "<svg><!--></svg>--></svg>x", "<svg><![CDATA[]]]></svg>x", "<svg><![CDATA[]]></svg>x", "<svg><![CDATA[", "<svg><![CDAT[</svg>]]>", "<svg><!-- \x00 --></svg>x", "<svg><![CDATA[\x00]]></svg>", "<svg><?\x00?></svg>", "<svg><?></svg>x", "<svg><??></svg>x", "<svg><?", "<svg a='<!--'></svg>x", "<svg><!-- ' \" --><a b='-->'/></svg>x", "<math><?x?><![CDATA[a]]><!----></math>y", "<svg><!-</svg>", "<svg><!></svg>x",
 	"<svg></SVG>", "<svg><path d=\"</svg>\"/></svg>x", "<svg>\"</svg>", "<svg></svgx></svg >", "<svg", "<svg>", "<svg></svg", "<svg>\x00</svg><svg></svg>x<math></math>", "<math></MATH>", "<xml></xml>", "<svgx></svgx>",
 	"a<b", "a< b", "a<", "a<1", "<a>\x00</a>", "\x00", "a\x00<b>\x00</b>", "<a\x00b=c\x00>", "</a\x00>", "<a b='\x00'>", "</\x00", "</\x00>", "<\x00",
+	"</A{{X}}>", "</A{{ X.Y }} {{Z}}>", "</{{X}}>", "</AB{", "</A{{",
 	"</A B=C>", "</A X=Y \f>", "</Ab/Cd>", "</A\tB='C D'/>", "</a\f>", "</a \f >", "</a\f", "</A", "</AB>", "</", "<A B=C>",
 	"<title>a</title-x>b</title", "<title>a</title", "<title>a</title/>", "<title>a</title\f>", "<title>a</TITLE\n>", "<title></title1></title>", "<title></title=></title >",
 	"<script><!--a</script-x>b--></script>c", "<script><!--<script></script-x></script>", "<script><!--<script-x></script>b--></script>c", "<script><!--<SCRIPT\f></script/></script>", "<script><!--<script", "<style></style\x00></style>", "<xmp></xmp\x00", "<a B>", "</a\r>", "</a\f>", "</a \t\n\r>", "<a\fb\f=\fc\f>", "<a b='c'\f/>",
@@ -1444,6 +1445,9 @@ func c09Constructs(r *Rng, tier string, rep *Report) {
 		{ty: html.TextToken, data: []byte("x"), ctx: "text"}})
 	c09CompareExp(rep, []byte("<math><![CDATA[</math>]]></math>"), "", "", []c09ExpTok{
 		{ty: html.MathToken, data: []byte("<math><![CDATA[</math>]]></math>"), text: []byte("math"), ctx: "math", key: "c09-svg:comment-endtag"}})
+	// a template in the name of an end tag is returned verbatim (fixed in 33be37c)
+	c09CompareExp(rep, []byte("</A{{X}}>"), "{{", "}}", []c09ExpTok{{ty: html.EndTagToken, data: []byte("</a{{X}}>"), text: []byte("a{{X}}"), ctx: "endtag", key: "c09-endtag:template-lowercased"}})
+	c09CompareExp(rep, []byte("</AB<%X%>C >"), "<%", "%>", []c09ExpTok{{ty: html.EndTagToken, data: []byte("</ab<%X%>C >"), text: []byte("ab<%X%>C"), ctx: "endtag", key: "c09-endtag:template-lowercased"}})
 	c09CompareExp(rep, []byte("</A X=Y \f>"), "", "", []c09ExpTok{{ty: html.EndTagToken, data: []byte("</a X=Y \f>"), text: []byte("a X=Y"), ctx: "endtag", key: "c09-case:endtag"}})
 	c09CompareExp(rep, []byte("<title>a</title-x>b</title"), "", "", []c09ExpTok{
 		{ty: html.StartTagToken, data: []byte("<title"), ctx: "starttag"}, {ty: html.StartTagCloseToken, ctx: "close"},
